@@ -182,6 +182,9 @@ func init() {
 	// whatever the case of the matrix key at its three places
 	c08Noise["        «rl»: [ubuntu-latest]\n"] = "        «rl»: [ubuntu-latest, nosuchrowlabel]\n"
 	c08Noise["          - «rl»: macos-latest\n"] = "          - «rl»: nosuchincludelabel\n"
+	// a step id defined three times in one job: the repetitions are reported whatever the letter case
+	// of the earlier and of the later definitions
+	c08Noise["  «lbl»:\n    strategy:\n"] = "  «dupjob»:\n    runs-on: ubuntu-latest\n    steps:\n      - id: «dupstep»\n        run: echo\n      - id: «dupstep»\n        run: echo\n      - id: «dupstep»\n        run: echo ${{ «steps».«dupstep».«outcome» }}\n  «lbl»:\n    strategy:\n"
 }
 
 type c08Occ struct {
